@@ -319,3 +319,19 @@ M2('c12-form-comma-safe-in-quoting-lambda', 'C12', 'R6', [
 # negative controls verified by hand with --root (silent): `safe='' if self._csv else ','` (the comma is literal only when the
 # reader does not split on it), `safe='~' if self._keep_blank else ''`, `safe=','` with the reader's csv argument dropped
 # (parse_query_string's default: no splitting); `safe=self._safe_chars` (not a boolean constructor option) is exit 2
+
+# R8 serializer slots without a working class-level fallback are bound on every constructor path (sa-am01511)
+JS = 'falcon/media/json.py'
+M('c12-json-bytes-dumps-leaves-serialize-unbound', 'C12', 'R8', JS,
+  "            self.serialize = self._serialize_b  # type: ignore[method-assign]\n", "")
+M('c12-json-str-dumps-leaves-serialize-unbound', 'C12', 'R8', JS,
+  "            self.serialize = self._serialize_s  # type: ignore[method-assign]\n", "")
+M('c12-json-serialize-bound-only-when-not-subclassed', 'C12', 'R8', JS,
+  "        else:\n            self.serialize = self._serialize_b  # type: ignore[method-assign]\n",
+  "        elif type(self) is JSONHandler:\n            self.serialize = self._serialize_b  # type: ignore[method-assign]\n")
+M2('c12-json-serialize-never-bound', 'C12', 'R8', [
+    {'file': JS, 'old': "            self.serialize = self._serialize_b  # type: ignore[method-assign]\n", 'new': ""},
+    {'file': JS, 'old': "            self.serialize = self._serialize_s  # type: ignore[method-assign]\n", 'new': ""},
+    {'file': JS, 'old': "            self._serialize_sync = self.serialize\n", 'new': "            self._serialize_sync = self._serialize_s\n"}])
+# negative controls (exit 0): serialize_async left to the base class in one arm (it delegates to serialize); the two arms swapped with the test
+# negated; `self.serialize = self._serialize_s if isinstance(result, str) else self._serialize_b`; a class-level `def serialize` dispatching on a flag
